@@ -25,8 +25,8 @@ Definition h_drop (h : holder) := tagged (hg h) "drop" (fun _ => true).
 
 Definition lineage_edge : eattrs := {| etype := "lineage"; eindex := None |}.
 
-Inductive result (A : Type) := Ok (a : A) | ErrNetworkX | ErrKey.
-Arguments Ok {A} a.
+Inductive result (A : Type) := BOk (a : A) | ErrNetworkX | ErrKey.
+Arguments BOk {A} a.
 Arguments ErrNetworkX {A}.
 Arguments ErrKey {A}.
 
@@ -38,7 +38,7 @@ Fixpoint do_drops (ds : list node) (g : graph) : graph :=
 
 Fixpoint do_renames (rs : list (node * node)) (g : graph) : result graph :=
   match rs with
-  | [] => Ok g
+  | [] => BOk g
   | (old, new) :: r =>
       match remove_edge (relabel g old new) new new with
       | None => ErrNetworkX
@@ -55,20 +55,20 @@ Fixpoint add_product (rs ws : list node) (g : graph) : graph :=
 Definition step (g0 : graph) (h : holder) : result graph :=
   let g := compose g0 (hg h) in
   match h_drop h, h_renames h with
-  | _ :: _, _ => Ok (do_drops (h_drop h) g)
+  | _ :: _, _ => BOk (do_drops (h_drop h) g)
   | [], _ :: _ => do_renames (h_renames h) g
   | [], [] =>
       match h_read h, h_write h with
-      | _ :: _, [] => Ok (set_attr g (h_read h) "source_only" true)
-      | [], _ :: _ => Ok (set_attr g (h_write h) "target_only" true)
-      | rs, ws => Ok (add_product rs ws g)
+      | _ :: _, [] => BOk (set_attr g (h_read h) "source_only" true)
+      | [], _ :: _ => BOk (set_attr g (h_write h) "target_only" true)
+      | rs, ws => BOk (add_product rs ws g)
       end
   end.
 
 Fixpoint fold_steps (g : graph) (hs : list holder) : result graph :=
   match hs with
-  | [] => Ok g
-  | h :: r => match step g h with Ok g1 => fold_steps g1 r | ErrNetworkX => ErrNetworkX | ErrKey => ErrKey end
+  | [] => BOk g
+  | h :: r => match step g h with BOk g1 => fold_steps g1 r | ErrNetworkX => ErrNetworkX | ErrKey => ErrKey end
   end.
 
 (** ** resolution of columns with several candidate parents *)
@@ -123,7 +123,7 @@ Definition selfloop_nodes (g : graph) : list node :=
 
 Definition build (p : provider) (hs : list holder) : result graph :=
   match fold_steps empty_graph hs with
-  | Ok g => Ok (resolve_all p (set_attr g (selfloop_nodes g) "selfloop" true))
+  | BOk g => BOk (resolve_all p (set_attr g (selfloop_nodes g) "selfloop" true))
   | ErrNetworkX => ErrNetworkX
   | ErrKey => ErrKey
   end.
@@ -246,7 +246,7 @@ Definition show_graph (g : graph) : string :=
   ++ "#E=" ++ join ";" (sort_strings (map (fun e => (show_node (fst (fst e)) ++ ">" ++ show_node (snd (fst e))
                                                      ++ ":" ++ etype (snd e))%string) (gedges g))).
 Definition show_result (r : result graph) : string :=
-  match r with Ok g => show_graph g | ErrNetworkX => "ERR:NetworkXError" | ErrKey => "ERR:KeyError" end.
+  match r with BOk g => show_graph g | ErrNetworkX => "ERR:NetworkXError" | ErrKey => "ERR:KeyError" end.
 
 Definition show_names (l : list node) : string := join "," (sort_strings (map show_node l)).
 Definition show_roles (g : graph) : string :=
@@ -266,7 +266,7 @@ Definition show_cy (r : list cy_node * list cy_edge) : string :=
 (** everything the tie compares, for one script *)
 Definition show_all (p : provider) (hs : list holder) : string :=
   match build p hs with
-  | Ok g => show_graph g ++ "@" ++ show_roles g ++ "@" ++ show_paths (column_lineage g true false)
+  | BOk g => show_graph g ++ "@" ++ show_roles g ++ "@" ++ show_paths (column_lineage g true false)
             ++ "@" ++ show_paths (column_lineage g false false) ++ "@" ++ show_paths (column_lineage g true true)
   | ErrNetworkX => "ERR:NetworkXError"
   | ErrKey => "ERR:KeyError"
